@@ -917,5 +917,9 @@ def gen_txt_fields(rng, N):
                 elif r < 0.75:
                     names[i] = names[i] + rng.choice(WS) + "z"      # inner white space is fine
         text = rng.choice([" a, b", "a,b,,c", " ,", "", ",", " x ", "\u00a0q\u2003, r\t", ", ".join(names), "  ".join(names)])
-        out.append({"op": "txt_fields", "names": list(names), "text": text, "_kind": kind})
+        prefix = rng.choice(["VERTICES:", "EDGE:", "GRAPH_VERTICES:", "GRAPH_EDGE:", "DEGREE:", "ORIENTED:", "FIRING:"])
+        body = " " + ", ".join(names)
+        pline = rng.choice([prefix + body, prefix + body, prefix + prefix + body, body + prefix, prefix[:-1] + body,
+                            prefix + " x" + prefix + "y", "GRAPH_" + prefix + body, prefix.lower() + body, ""])
+        out.append({"op": "txt_fields", "names": list(names), "text": text, "prefix": prefix, "pline": pline, "_kind": kind})
     return out
